@@ -151,6 +151,10 @@ func (e *Exec) step(st *State, ins ssa.Instruction) {
 		}
 		st.env[x] = r
 	case *ssa.Field:
+		if sc, ok := e.eval(st, x.X).(Scalar); ok && sc.Typ != nil {
+			st.env[x] = e.projectField(sc, x.Field)
+			return
+		}
 		s, ok := e.eval(st, x.X).(*StructV)
 		if !ok {
 			e.refuse("Field on non-struct %T", e.eval(st, x.X))
